@@ -116,7 +116,8 @@ func slowLimited(op string) Case {
 
 // TestAALongHalfClosedStart must stay the first test of the binary (file name order).
 // Background jobs by shard: 0,1 long-lived half-closed connection (one orientation each);
-// 2,3 slow bandwidth-limited transfer (one direction each).
+// 2,3 slow bandwidth-limited transfer (one direction each); 4 SOCKS5 CONNECT session through
+// the real socks5.Listener that is still receiving 33 s after accept.
 func TestAALongHalfClosedStart(t *testing.T) {
 	if vkit.Replaying() != "" {
 		t.Skip("replay")
@@ -126,6 +127,7 @@ func TestAALongHalfClosedStart(t *testing.T) {
 		{Long: &LongCase{FirstToClose: "B", Seconds: vkit.Pick(12, 35), EveryMS: 250}},
 		slowLimited("sendA"),
 		slowLimited("sendB"),
+		{Socks: &SocksCase{Seconds: 33, EveryMS: 400}},
 	}
 	bgJobs.mu.Lock()
 	defer bgJobs.mu.Unlock()
@@ -139,6 +141,8 @@ func TestAALongHalfClosedStart(t *testing.T) {
 			var f *failure
 			if j.c.Long != nil {
 				f = runLong(*j.c.Long)
+			} else if j.c.Socks != nil {
+				f = runSocks(*j.c.Socks)
 			} else {
 				f, _, _, _ = runTCPOpt(j.c.TCP, true)
 			}
